@@ -57,6 +57,12 @@ def market_and_configs():
              long_only=True, buffer=0.0),
         # an asset whose data start after the session does: prices are asked before its first bar (the run
         # stops with the documented NaN-price error; that outcome is part of the digest)
+        # two data sources behind one handler; the second session covers only dates that both sources cover
+        dict(base, name='twosrc-full', market='twosrc', alpha={'kind': 'fixed', 'weights': {'EQ:AAA': 0.6, 'EQ:BBB': 0.4}},
+             rebalance='daily', long_only=True, buffer=0.05),
+        dict(base, name='twosrc-late', market='twosrc', alpha={'kind': 'fixed', 'weights': {'EQ:AAA': 0.6, 'EQ:BBB': 0.4}},
+             rebalance='daily', long_only=True, buffer=0.05,
+             start=rm.utc(datetime.date(2020, 2, 28), 14, 30).isoformat()),
         dict(base, name='late-data-momentum', market='late', alpha={'kind': 'mom_top1', 'lookback': 1}, rebalance='daily',
              long_only=True, buffer=0.05),
     ]
@@ -68,6 +74,12 @@ def market_for(cfg):
     from .. import refmodel as rm
     from .. import sessionlab as sl
     market, _ = market_and_configs()
+    if cfg.get('market') == 'twosrc':
+        # the first (priority) source's AAA file starts late; a second source carries AAA from the start at other prices
+        days = rm.bdays(datetime.date(2020, 2, 17), datetime.date(2020, 3, 6))
+        market = dict(market)
+        market['AAA'] = [r for r in market['AAA'] if r[0] >= datetime.date(2020, 2, 27)]
+        market['AAA@2'] = sl.make_market(days, {'X': ('zigzag', '77.77')})['X']
     if cfg.get('market') == 'late':
         days = rm.bdays(datetime.date(2020, 2, 17), datetime.date(2020, 3, 6))
         market = dict(market)
@@ -423,7 +435,11 @@ def child_main():
     try:
         for cfg in cfgs:
             for f in os.listdir(d):
-                os.unlink(os.path.join(d, f))
+                pth = os.path.join(d, f)
+                if os.path.isdir(pth):
+                    shutil.rmtree(pth, ignore_errors=True)
+                else:
+                    os.unlink(pth)
             m = market_for(cfg)
             sl.write_market(d, m)
             handler, _ = sl.load_handler(d, m)
@@ -488,7 +504,8 @@ def run(tier, res, is_known):
         return
     pristine = dict(zip(range(len(cfgs)), core.pmap(pristine_digest, list(range(len(cfgs))), chunk=1)))
     res.executions += len(cfgs)
-    pairs = [(i, j, 'pair', pristine[j]) for i in range(len(cfgs)) for j in range(len(cfgs))]
+    pairs = [(i, j, 'pair', pristine[j]) for i in range(len(cfgs)) for j in range(len(cfgs))
+             if cfgs[i].get('market') == cfgs[j].get('market') or cfgs[j].get('market') is None]
     pairs += [(0, j, 'burst', pristine[j]) for j in range(len(cfgs))]
     pairs += [(i, j, 'other_market', pristine[j]) for i in (0, 1, 3) for j in range(len(cfgs))]
     pairs += [(i, j, 'rewritten_dir', pristine[j]) for i in (0, 1) for j in range(len(cfgs))]
